@@ -95,6 +95,7 @@ def run(ctx):
         ok = bool(rets) and all(any(atom_is_type_test(a, "history") is False for a in guards_at(isd, x)) for x in rets)
         c.ob("R4", ok, isd, "doneness-skips-history", "a history child never makes a parallel state 'not done'" if ok else
              "the region loop of _is_state_done treats a history pseudo-state as a region: a parallel state with a history child can never complete", l)
+    shared.eligible_bucket_rules(ctx, "R8", "ondone")
     # ---- R7 done-ness: every region must be done; a history child is skipped, not a reason to stop ----------
     def _falsy(v):
         return isinstance(v, ast.Constant) and not v.value
